@@ -11,6 +11,9 @@ R4  bounded writes into fixed arrays: no strcat/sprintf/vsprintf/gets/stpcpy; th
     capacity of its destination.
 R5  limits are tested before growth: mkstate() (maximum_mns), new_rule() (MAX_RULE).
 R6  flexend(): a non-zero status with a created output file reaches unlink(env.outfilename).
+R8  arrays that share a capacity grow together: for every (capacity global C, array global G) pair derived from the
+    allocation sizes in the IR, each function that increases C reallocates G (with a size that reads C) on every
+    returning path; the arm where an optional G is null is exempt.
 """
 import re
 import ir, flow
@@ -1040,6 +1043,8 @@ def controls(ctx):
     expect_control(ctx, 'C16.R5', c, ['mkstate:maximum_mns', 'new_rule:MAX_RULE'])
     c = Collect(); r6(p, c, anchors=False)
     expect_control(ctx, 'C16.R6', c, ['flexend:unlink'])
+    c = Collect(); r8(p, c)
+    expect_control(ctx, 'C16.R8', c, ['bad_grow:cur_max:forgotten', 'bad_grow_early_return:cur_max2:late'], must_hold=3)
 
 # ================================================================ driver
 
@@ -1069,6 +1074,105 @@ def r7(prog, rep):
         o = rep.obl.setdefault('C16.R7', [0, 0]); o[0] += n - 1; o[1] += n - 1
     return n
 
+# ================================================================ R8  arrays that share a capacity grow together
+
+ALLOC_SIZE_ARG = {'allocate_array': 0, 'reallocate_array': 1, 'malloc': 0, 'calloc': 0, 'realloc': 1, 'reallocarray': 1}
+REALLOCS = {'reallocate_array': 0, 'realloc': 0, 'reallocarray': 0}      # callee -> index of the old-block argument
+R8_EXCEPT = {
+    ('lastsc', 'scon_stk'): 'lastsc is the number of start conditions, not a capacity: scon_stk is allocated with lastsc + 1 entries by the sect1end production, '
+                            'after the last scinstal() - start conditions can only be declared in section 1 (order fixed by the grammar, not decidable on the CFG)',
+}
+
+def capacity_families(prog):
+    """{capacity global C: {array global G: [allocation stores]}}: G is assigned the result of an allocation whose size
+    expression loads C (derived from the IR, nothing is listed by name)"""
+    fam = {}
+    for f in fns(prog):
+        res = Resolver(f)
+        for x in f.ins:
+            if x.op != 'store': continue
+            l = res.loc(x.ops[1])
+            if l[0] != 'global': continue
+            d = f.def_of(flow.strip_casts(f, x.ops[0]))
+            if d is None or d.op != 'call' or d.callee not in ALLOC_SIZE_ARG or len(d.ops) <= ALLOC_SIZE_ARG[d.callee]: continue
+            li = lin(f, d.ops[ALLOC_SIZE_ARG[d.callee]], res)
+            for a in (li or {}):
+                if a != 1 and a[0] == 'load' and a[1][0] == 'global':
+                    fam.setdefault(a[1][1], {}).setdefault(l[1], []).append(x)
+    return fam
+
+def grow_stores(prog, C):
+    """stores to capacity global C whose value is computed from C itself and is not a decrease (C += k, C *= 2, C += C/8)"""
+    out = []
+    for f in fns(prog):
+        res = Resolver(f)
+        for x in f.ins:
+            if x.op != 'store' or res.loc(x.ops[1]) != ('global', C): continue
+            if not any(y.op == 'load' and res.loc(y.ops[0]) == ('global', C) for y in flow.value_slice(f, x.ops[0])): continue
+            li = lin(f, x.ops[0], res)
+            if li is not None and set(li) <= {1, ('load', ('global', C))} and li.get(('load', ('global', C))) == 1 and li.get(1, 0) <= 0: continue
+            out.append(x)
+    return out
+
+def realloc_stores(prog, f, G, C, res):
+    """stores in f that assign G the result of a reallocation of G sized by C"""
+    out = []
+    for x in f.ins:
+        if x.op != 'store' or res.loc(x.ops[1]) != ('global', G): continue
+        d = f.def_of(flow.strip_casts(f, x.ops[0]))
+        if d is not None and d.op == 'load' and res.loc(d.ops[0])[0] == 'local':
+            # int *grown = realloc(...); G = grown;
+            st = [y for y in f.ins if y.op == 'store' and res.loc(y.ops[1]) == res.loc(d.ops[0])]
+            if len(st) == 1: d = f.def_of(flow.strip_casts(f, st[0].ops[0]))
+        if d is None or d.op != 'call' or d.callee not in REALLOCS: continue
+        old = f.def_of(flow.strip_casts(f, d.ops[REALLOCS[d.callee]]))
+        if old is None or old.op != 'load' or res.loc(old.ops[0]) != ('global', G): continue
+        li = lin(f, d.ops[ALLOC_SIZE_ARG[d.callee]], res)
+        if li is None or ('load', ('global', C)) not in li: continue
+        out.append(x)
+    return out
+
+def r8(prog, rep, exceptions=R8_EXCEPT, floor_note=True):
+    fam = capacity_families(prog)
+    n = 0; table = []
+    for C in sorted(fam):
+        gs = grow_stores(prog, C)
+        if not gs: continue              # a size that never grows (lastsc, _sf_max users are found through their own growth)
+        table.append('%s: %s (grown in %s)' % (C, ', '.join(sorted(fam[C])), ', '.join(sorted({g.fn.name for g in gs}))))
+        for S in gs:
+            f = S.fn; res = Resolver(f); cfg = prog.cfg(f)
+            for G in sorted(fam[C]):
+                n += 1
+                kk = key('C16.R8', f, '%s:%s' % (C, G))
+                if (C, G) in exceptions:
+                    rep.ok('C16.R8', '%s: %s grows, %s excepted: %s' % (f.name, C, G, exceptions[(C, G)])); continue
+                rs = realloc_stores(prog, f, G, C, res)
+                # a direct callee that reallocates G on every returning path counts as the reallocation
+                for c in f.ins:
+                    g = prog.fn(c.callee) if c.op == 'call' and isinstance(c.callee, str) else None
+                    if g is None or g is f or not g.blocks: continue
+                    gr = realloc_stores(prog, g, G, C, Resolver(g))
+                    if gr and not any(y.op == 'ret' for y in prog.cfg(g).reach_from_block(g.entry, avoid=gr)): rs.append(c)
+                def filt(b, t, G=G):
+                    # the arm where the optional array G is null needs no reallocation
+                    br = b.ins[-1]
+                    te = truth_edges(f, br) if br.op == 'br' and len(br.targets) == 2 else None
+                    if te is None: return True
+                    d = f.def_of(flow.strip_casts(f, te[0]))
+                    if d is not None and d.op == 'load' and res.loc(d.ops[0]) == ('global', G) and te[1] != te[2]:
+                        return t.name != te[2]
+                    return True
+                leak = [y for y in cfg.reach(S, avoid=rs, edge_filter=filt) if y.op == 'ret']
+                if rs and not leak:
+                    rep.ok('C16.R8', '%s: %s grows@%s -> %s reallocated@%s' % (f.name, C, S.line, G, rs[0].line))
+                else:
+                    rep.fail('C16.R8', kk, where(S), '%s() increases %s but %s %s, which is allocated with %s elements (%s): the next access up to the new capacity writes past the block' % (
+                        f.name, C, 'can return without reallocating' if rs else 'does not reallocate', G, C,
+                        ', '.join(sorted({where(a) for a in fam[C][G]}))[:160]),
+                        replay_input='flex -Cf on a specification with more than 1000 DFA states (valgrind: invalid write in ntod)' if G == 'nultrans' else None)
+    rep.note('C16.R8 capacity families derived from the IR: ' + ' | '.join(table))
+    return n, table
+
 def run(ctx):
     rep = ctx.rep
     prog = ctx.flex
@@ -1084,6 +1188,8 @@ def run(ctx):
     counts['R5'] = r5(prog, rep)
     counts['R6'] = r6(prog, rep)
     counts['R7'] = r7(prog, rep)
+    counts['R8'], r8table = r8(prog, rep)
+    rep.setcount('capacity_families', len(r8table))
     rep.setcount('translation_units', len(prog.modules))
     rep.setcount('functions_analysed', len(fns(prog)))
     for k_, v in counts.items(): rep.setcount('instances_' + k_, v)
@@ -1094,6 +1200,7 @@ def run(ctx):
     rep.floor('C16.R5', 2, 'mkstate, new_rule')
     rep.floor('C16.R6', 2, 'flexend unlink, check_options outfile_created')
     rep.floor('C16.R7', 800, 'constant-index addresses of fixed arrays in flex')
+    rep.floor('C16.R8', 38, '11 capacity families with 37 (capacity, array) pairs today; epsclosure grows current_max_dfa_size at 5 macro sites')
     rep.undecided += ['termination and crash-freedom of flex on arbitrary input',
                       'bounds of writes that are not made through strcpy/strncpy/strncat/(v)snprintf (hand-written copy loops, array indexing)',
                       'that the functions holding a flush point perform the last write of the run to that stream (checked per function only)',
